@@ -7,7 +7,7 @@
      vsize_now f cs  virtual_size right after the last chunk of cs  (a prefix of a longer presentation)
    wf_<fmt> are boolean predicates on the bytes (Model/C07.v), written with the literal offsets of the formats. *)
 Require Import OV.Base.Bytes OV.Base.Py OV.Gen.Insp_Consts OV.Model.Insp_All OV.Model.C07.
-Require Import OV.Proofs.C07_Static OV.Proofs.C07_Vmdk.
+Require Import OV.Proofs.C07_Static OV.Proofs.C07_Vmdk OV.Proofs.C07_Vhdx.
 Open Scope N_scope.
 
 (* ---------------- qcow2 ---------------- *)
@@ -111,3 +111,30 @@ Theorem vsize_vmdk_at_every_prefix : forall w sectors version desc_num cs,
   vsize_end F_vmdk cs = (if blen (concat cs) <? vmdk_known_at desc_num then Ok 0%Z else Ok (Z.of_N (sectors * 512))).
 Proof. exact vsize_vmdk_prefix_lemma. Qed.
 Print Assumptions vsize_vmdk_at_every_prefix.
+
+(* ---------------- VHDX ----------------
+   wf_vhdx size l b, with the layout l = (region-table count <= 2047, index of the metadata-region entry, metadata region
+   offset >= 256 KiB, metadata-table count <= 2047, index of the virtual-disk-size entry, item offset >= 32 + 32*count):
+   any number (0..2046) of other entries, in any order, in front of the wanted entry of either table, any entries behind
+   it; 'regi' and 'metadata' signatures; item length 8; the stream reaches the end of the size item. *)
+Theorem vsize_vhdx_wellformed : forall size l b cs,
+  size < 2 ^ 64 -> wf_vhdx size l b = true -> concat cs = b ->
+  quiet F_vhdx cs /\ vsize_end F_vhdx cs = Ok (Z.of_N size).
+Proof. exact vsize_vhdx_wellformed_lemma. Qed.
+Print Assumptions vsize_vhdx_wellformed.
+
+(* every chunking of every prefix of a well-formed image that stops before the end of the size item: 0 *)
+Theorem vsize_zero_while_unknown_vhdx : forall w size l cs,
+  size < 2 ^ 64 -> wf_vhdx size l w = true ->
+  is_prefix (concat cs) w = true -> blen (concat cs) < vhdx_known_at l ->
+  quiet F_vhdx cs /\ vsize_now F_vhdx cs = Ok 0%Z /\ vsize_end F_vhdx cs = Ok 0%Z.
+Proof. exact vsize_zero_while_unknown_vhdx_lemma. Qed.
+Print Assumptions vsize_zero_while_unknown_vhdx.
+
+Theorem vsize_vhdx_at_every_prefix : forall w size l cs,
+  size < 2 ^ 64 -> wf_vhdx size l w = true -> is_prefix (concat cs) w = true ->
+  quiet F_vhdx cs /\
+  vsize_now F_vhdx cs = (if blen (concat cs) <? vhdx_known_at l then Ok 0%Z else Ok (Z.of_N size)) /\
+  vsize_end F_vhdx cs = (if blen (concat cs) <? vhdx_known_at l then Ok 0%Z else Ok (Z.of_N size)).
+Proof. exact vsize_vhdx_prefix_lemma. Qed.
+Print Assumptions vsize_vhdx_at_every_prefix.
